@@ -138,6 +138,7 @@ pub fn check_seq(seq: &[Item], ctx: &mut Ctx) {
     let text = render(seq);
     ctx.eval();
     ctx.current_text(&text);
+    syntax::verif::arm(64 * (text.len() as u64 + 8));
     let parsed = guard(|| {
         let p = syntax::parse(&text);
         let root = p.syntax_node();
@@ -156,10 +157,15 @@ pub fn check_seq(seq: &[Item], ctx: &mut Ctx) {
         }
         (ids, error_tokens, p.errors().iter().map(|e| e.message.clone()).collect::<Vec<_>>())
     });
+    syntax::verif::disarm();
     let (ids, error_tokens, errors) = match parsed {
         Ok(x) => x,
         Err(pi) => {
-            ctx.panic_violation("pp:", &pi, case_of(seq, &text));
+            if pi.is_budget() {
+                ctx.violation("pp:non-progress", "the preprocessor / parser exhausted its step budget (stopped consuming input)".to_string(), case_of(seq, &text));
+            } else {
+                ctx.panic_violation("pp:", &pi, case_of(seq, &text));
+            }
             return;
         }
     };
